@@ -244,6 +244,11 @@ def splice(take, mode, mutant=None):
             head = get(f"loop {n}")
             pat = re.compile(r"loop \{\s*__verif_loop_head_%d !\(\);" % n)
             if not pat.search(text):
+                if mutant is not None and mutant[1] == take.key:
+                    # the mutation removed this loop: its sections have no anchor any more
+                    for kind in ("loop", "before_loop", "after_loop", "body_start", "body_end"):
+                        used.add(f"{kind} {n}")
+                    continue
                 raise Undecided(f"{take.key}: loop head {n} placeholder lost")
             text = pat.sub(lambda m: "loop\n" + head + "\n{", text, count=1)
             for kind in ("before_loop", "after_loop", "body_start", "body_end"):
@@ -349,14 +354,15 @@ LABEL_RE = re.compile(r"\[([A-Za-z0-9_.:\-]+)\]\s*$")
 FN_RE = re.compile(r"^\s*(?:pub(?:\([a-z]+\))?\s+)?(?:(?:proof|spec|exec|open|closed|broadcast|uninterp|axiom)\s+)*fn\s+(\w+)")
 
 
-def locate(gen_lines, linemap, line_no):
+def locate(gen_lines, linemap, line_no, line_end=None):
     """label + function + take for a 1-based line of the generated file"""
     label = None
     i = line_no - 1
-    if 0 <= i < len(gen_lines):
-        m = LABEL_RE.search(gen_lines[i])
+    for k in range(i, min((line_end or line_no), len(gen_lines))):
+        m = LABEL_RE.search(gen_lines[k])
         if m:
             label = m.group(1)
+            break
     fn = None
     j = i
     while j >= 0:
@@ -389,13 +395,13 @@ def classify(res, gen_lines, linemap):
         spans = d.get("spans", [])
         prim = [s for s in spans if s.get("is_primary")] or spans
         sec = [s for s in spans if not s.get("is_primary")]
-        pl, pfn, ptake, porigin = locate(gen_lines, linemap, prim[0]["line_start"]) if prim else (None, None, None, None)
+        pl, pfn, ptake, porigin = locate(gen_lines, linemap, prim[0]["line_start"], prim[0].get("line_end")) if prim else (None, None, None, None)
         # the function whose proof failed: for pre/postconditions the non-primary span is in the body under check
         site_fn, site_take, site_label = pfn, ptake, None
         if msg.startswith("precondition not satisfied"):
             # primary = call site, secondary = failed precondition clause
             for s in sec:
-                l2, f2, t2, _ = locate(gen_lines, linemap, s["line_start"])
+                l2, f2, t2, _ = locate(gen_lines, linemap, s["line_start"], s.get("line_end"))
                 if l2:
                     site_label = "pre:" + (f2 or "?") + "/" + l2
                 elif f2:
@@ -461,7 +467,7 @@ def verify_unit(unit_path, mode="normal", mutant=None, tier="quick", keep=True, 
     gpath = os.path.join(BUILD, unit["name"] + suffix + ".rs")
     with open(gpath, "w") as f:
         f.write("\n".join(gen_lines) + "\n")
-    res = run_verus(gpath, rlimit=rlimit, seed=seed, multiple_errors=(12 if mode == "canary" else None))
+    res = run_verus(gpath, rlimit=(rlimit or (3 if mode == "canary" else None)), seed=seed, multiple_errors=(12 if mode == "canary" else None))
     failures, tool, rl = classify(res, gen_lines, linemap)
     if rl and mode == "normal" and mutant is None and not failures and not tool:
         # retry once with 4x rlimit and another seed (DESIGN §2.4)
@@ -492,6 +498,20 @@ def check_canaries(unit_path):
     for f in r["failures"]:
         if f["label"] and f["label"].startswith("canary-"):
             failed.add(f["label"])
+    # a canary whose function ran into the resource limit was NOT proved either: count it as not verified
+    rl_fns = set()
+    for d in r["res"]["diags"]:
+        if d.get("level") == "error" and any(p in d.get("message", "") for p in RLIMIT_PREFIXES):
+            for sp in d.get("spans", []):
+                _, fn, _, _ = locate(r["gen_lines"], r["linemap"], sp["line_start"] + 1)
+                if fn:
+                    rl_fns.add(fn)
+    for i, l in enumerate(r["gen_lines"]):
+        m = re.search(r"\[(canary-[a-z]+(?::[\w.]+)?)\]\s*$", l)
+        if m and m.group(1) not in failed:
+            _, fn, _, _ = locate(r["gen_lines"], r["linemap"], i + 1)
+            if fn in rl_fns:
+                failed.add(m.group(1))
     return sorted(expected), sorted(expected - failed), r
 
 
